@@ -65,6 +65,11 @@ class C05(Check):
                               (4, 3, 3, 1), (2, 2, 1, 4)]):
             cfgs.append(Config('table_T%d_K%d_N%d_W%d' % (T, K, N, W), self.table, {'T': T, 'K': K, 'N': N, 'W': W},
                                witness_every=1, nonlinear=True))
+        # integer-valued sensor data handed over as an integer array (counts): the densities are still reals
+        for (T, K, N, W) in ([(2, 2, 1, 1)] if tier == 'quick' else [(2, 2, 1, 1), (3, 2, 2, 1), (2, 2, 1, 2)]):
+            cfgs.append(Config('table_int_data_T%d_K%d_N%d_W%d' % (T, K, N, W), self.table,
+                               {'T': T, 'K': K, 'N': N, 'W': W, 'data_kind': 'int'}, witness_every=1, nonlinear=True,
+                               split=2))
         for n in ([1, 40, 100] if tier == 'quick' else [1, 40, 100, 200]):
             cfgs.append(Config('finite_n%d' % n, self.finite, {'n': n}))
         return cfgs
@@ -89,10 +94,15 @@ class C05(Check):
         if ok:
             c.prove('point_wrapper_uses_cluster_fields', same_density(R(res2), gauss_logpdf(x, mu, Th, R(ld), n)))
 
-    def table(self, c, T, K, N, W):
+    def table(self, c, T, K, N, W, data_kind='real'):
         Rp = self.R
         n = N * W
-        data = stubs.sym_array(c, 'x', (T, n), writeable=False)
+        if data_kind == 'int':
+            data = stubs.sym_array(c, 'x', (T, n), kind='int', lo=-3, hi=3, writeable=False)
+            c.notes['data_dtype'] = 'int64'
+        else:
+            data = stubs.sym_array(c, 'x', (T, n), writeable=False)
+            c.notes.pop('data_dtype', None)
         args = states.user_args(Rp, K, W=W)
         st = states.fitted_state(Rp, c, K, n, [i % K for i in range(T)], data, args, spd=(n <= 2))
         mus = np.asarray([cl.stacked_data_mean for cl in st.clusters])
